@@ -9,9 +9,10 @@
      n    the parameter's position (0 for lines that belong to no parameter)
      typ  the type written on the line ("absent" if none)      doc  the description class
      lex  the lexical class of the text after "Defaults to" ("none" when no default is carried)
-   EmitLines(cfg, i)   what the emitter writes.     asBuilt = TRUE reproduces the structural departures of the real NumPy / Google
-                       emitters: a RETURN entry whose type is not written gets no type line at all; a return-only section is
-                       glued to its header.  (Parameters whose type is not written lost their name line too, until repaired.)
+   EmitLines(cfg, i, asBuilt)   what the emitter writes.  asBuilt = the set of listed finding ids; two of them have an emitter-side cause
+                       that is reproduced here: a RETURN entry whose type is not written gets no type line at all
+                       (numpydoc_no_types_unparsable); a return-only section is glued to its header (gn_return_only_mangled).
+                       (Parameters whose type is not written lost their name line too, until repaired.)
    ParseLines(st, ls)  a fold over the lines, per style, returning an interface.
    RoundTripLines      ParseLines(EmitLines(i)) agrees with DocRules!Norm(cfg, i) -- a theorem about two separately
                        written halves, checked by TLC on the ideal emitter.                                        *)
@@ -73,7 +74,7 @@ EmitReturn(cfg, r, asBuilt) ==
     [] cfg.style = "google" -> <<L("ReturnsHdr", 0, "absent", "absent", "none"), L("gret_typ", 0, t, "absent", "none")>>
                                  \o (IF d THEN <<L("gret_doc", 0, "absent", r.doc, "none")>> ELSE <<>>)
     [] cfg.style = "numpydoc" -> <<L("ReturnsHdr", 0, "absent", "absent", "none"), L("dashes", 0, "absent", "absent", "none")>>
-                                 \o (IF w \/ ~asBuilt THEN <<L("nret_typ", 0, t, "absent", "none")>> ELSE <<>>)
+                                 \o (IF w \/ "numpydoc_no_types_unparsable" \notin asBuilt THEN <<L("nret_typ", 0, t, "absent", "none")>> ELSE <<>>)
                                  \o (IF d THEN <<L("ndoc", 0, "absent", r.doc, "none")>> ELSE <<>>)
 SectionHdr(cfg, i) == IF i.params = <<>> THEN <<>>
                       ELSE CASE cfg.style = "google" -> <<L("ArgsHdr", 0, "absent", "absent", "none")>>
@@ -85,7 +86,7 @@ EmitLines(cfg, i, asBuilt) ==
   \o Concat([k \in 1..Len(i.params) |-> EmitParam(cfg, i.params[k], k, asBuilt)])
   \o (IF cfg.style # "rest" /\ i.params # <<>> THEN <<Blank>> ELSE <<>>)
   \o (IF i.ret = D!NoRet \/ ~D!RetWritten(cfg, i.ret) THEN <<>>
-      ELSE IF asBuilt /\ i.params = <<>> /\ cfg.style # "rest" /\ (Written(cfg, i.ret) \/ cfg.style = "numpydoc") THEN EmitReturnGlued(cfg, i.ret)
+      ELSE IF "gn_return_only_mangled" \in asBuilt /\ i.params = <<>> /\ cfg.style # "rest" /\ (Written(cfg, i.ret) \/ cfg.style = "numpydoc") THEN EmitReturnGlued(cfg, i.ret)
       ELSE EmitReturn(cfg, i.ret, asBuilt))
 
 \* ---- parse: a fold over the lines ------------------------------------------------------------------------------
@@ -118,5 +119,5 @@ Agrees(parsed, norm) == /\ parsed.doc = norm.doc
                         /\ \A k \in 1..Len(norm.params) : EntryAgrees(parsed.params[k], norm.params[k])
                         /\ IF norm.ret.present THEN parsed.ret # NoneRet /\ parsed.ret.typ \in norm.ret.typs /\ parsed.ret.doc = norm.ret.doc
                            ELSE parsed.ret = NoneRet
-RoundTripLines(cfg, i) == Agrees(ParseLines(EmitLines(cfg, i, FALSE)), D!Norm(cfg, i))
+RoundTripLines(cfg, i) == Agrees(ParseLines(EmitLines(cfg, i, {})), D!Norm(cfg, i))
 =====================================================================================
